@@ -217,6 +217,7 @@ def write_ini(path, kv, annotated=False):
                 out.append('# ' + ('what this box means, copied from the template ' * 2))
             out.append(line)
         out += ['', '[zz_notes]'] + [f'note_{k} = remember to ask the accountant about item {k} before filing' for k in range(40)]
+        out += ['bank = 5% Savings Bank (statement not received yet)', 'reminder = 100% of the refund goes to savings; see %(folder)s']
         with open(path, 'w') as f:
             f.write('\n'.join(out) + '\n')
 
@@ -281,7 +282,13 @@ def one_fault(res, spec, year, forms, tmp, initial, full_answers, lookup, fault,
             return orig(self, i, v)
         F.TypedField.value = failing
     try:
-        r, given = session(year, forms, path, a, fault=fault if kind in ('sigint', 'eof', 'invalid-sigint') else None)
+        extra = ()
+        if kind in ('sigint', 'eof') and isinstance(fault[1], int) and fault[1] % 5 == 2:
+            # ... and the place the results should go to cannot be written (a directory that does not exist): one more thing
+            # that goes wrong after the questions - the answers given are in the input file all the same
+            extra = ('--solution', os.path.join(tmp, 'no', 'such', 'directory', 'solution.ini'))
+            res.count('sessions_with_unwritable_solution_path')
+        r, given = session(year, forms, path, a, fault=fault if kind in ('sigint', 'eof', 'invalid-sigint') else None, extra_args=extra)
     finally:
         F.TypedField.value = orig
     res.evaluations += 1
